@@ -186,6 +186,16 @@ func (r *Runner) checkProperty(spec *PropSpec) int {
 			}
 		}
 	}
+	var trustedClauses []string
+	for _, fc := range res.ctxs {
+		if fc.contract != nil {
+			for _, e := range fc.contract.Ensures {
+				if strings.HasPrefix(e.Tag, "trusted") || fc.contract.Opts["trustpost"] != "" {
+					trustedClauses = append(trustedClauses, "assumed postcondition of "+fc.funcShort()+": "+e.Text)
+				}
+			}
+		}
+	}
 	var externs []string
 	for k := range usedExtern {
 		externs = append(externs, k)
@@ -211,7 +221,7 @@ func (r *Runner) checkProperty(spec *PropSpec) int {
 			"vacuity_covers": covers, "vacuity_covers_sat": coverOK, "known_findings_printed": knownPrinted, "failed": failedNames,
 			"load_ms": r.loadMs, "functions_not_verified": res.skipped,
 		},
-		Assumptions: append(append([]string{}, spec.Assume...), externs...),
+		Assumptions: append(append(append([]string{}, spec.Assume...), trustedClauses...), externs...),
 	}
 	if len(samples) == 0 {
 		ev.Coverage["samples"] = []interface{}{"(no non-trivial obligation discharged)"}
